@@ -241,8 +241,8 @@ def run(chk, tier):
         chk.analysis_broken("POST: only %d specified mutating members found (floor 18)" % npost)
     # SLOTS-W: a raw size store that may grow the vector is on a path that writes the newly exposed slots
     nsl = slots.check(chk, D.load("plain"), ["static_vector", "inplace_vector"], lambda r: False, only=("W",))
-    if chk.rule_instances.get("SLOTS-W", 0) < 5:
-        chk.analysis_broken("SLOTS-W: only %d growing size stores found in the vectors (floor 5)" % chk.rule_instances.get("SLOTS-W", 0))
+    if chk.rule_instances.get("SLOTS-W", 0) < 2:
+        chk.analysis_broken("SLOTS-W: only %d growing size stores found in the vectors (floor 2; delegation may gather them in fewer members)" % chk.rule_instances.get("SLOTS-W", 0))
     nrel = rel.check(chk, db, ["_vector/static_vector.hpp", "_stack/stack.hpp"])
     if nrel < 12:
         chk.analysis_broken("REL: only %d vector/stack operators modelled" % nrel)
